@@ -168,6 +168,22 @@ type Event struct {
 	Nums  []int        `json:"nums"`  // slot numbers of the keys (send)
 	Desc  []NodeDesc   `json:"desc"`  // topo
 	Table []TableRange `json:"table"` // refreshed
+	Tobs  TopoObs      `json:"tobs"`  // tinit, rstep, tobs, refreshed: the topology pipeline as observed
+}
+
+// TopoObs is what can be seen of the topology pipeline (spec/RcTopo.tla) from outside.
+type TopoObs struct {
+	TAt     string    `json:"tAt"`     // scheduling point at which ticker() is parked ("" = not inside the shared section)
+	RAt     string    `json:"rAt"`     // scheduling point at which the refresher is parked
+	Iter    bool      `json:"iter"`    // a permitted poller iteration has not finished
+	Chan    int       `json:"chan"`    // replies waiting in clusterChan
+	Changed bool      `json:"changed"` // ClusterNodes.serverChanged
+	Pools   []PoolObs `json:"pools"`
+}
+
+type PoolObs struct {
+	Name  string `json:"name"`
+	Slave bool   `json:"slave"`
 }
 
 // IntBytes renders bytes as a JSON-friendly int slice (the TLA+ side works on sequences of integers).
@@ -197,6 +213,9 @@ func (e *Event) norm() {
 	}
 	if e.Desc == nil {
 		e.Desc = []NodeDesc{}
+	}
+	if e.Tobs.Pools == nil {
+		e.Tobs.Pools = []PoolObs{}
 	}
 	for i := range e.Desc {
 		if e.Desc[i].Ranges == nil {
